@@ -7,6 +7,7 @@ from __future__ import annotations
 
 import errno
 import os
+import re
 
 from hypothesis import strategies as st
 
@@ -241,6 +242,10 @@ def check_case(case, ctx):
     eb = clients.parse_listing(form, pb)
     base = dirsel if dirsel != "/" else ""
     faulty_sels = {world.b(base + "/" + nm) for _, nm in case["faults"]}
+    if case.get("fulllist") and re.match(r"^/[^/](/|$)", base):
+        # below a one-character top-level directory the URL type rewriter (full list) reads '/1/rest' as type 1 + '/rest':
+        # a faulty entry may then be listed under that reading of its selector
+        faulty_sels |= {world.b((base + "/" + nm)[2:]) for _, nm in case["faults"]}
 
     def key(e):
         return (e["kind"], e["name"], e["target"])
